@@ -50,7 +50,7 @@ prop('C06', prefix=['c06'],
      bounds='two input cells A1, B1, each a number / boolean / empty / the text abc / the error #N/A (solver chooses; for + - and the comparisons also the empty text and the error #DIV/0!), one formula in C1 typed through the real '
             'parser and evaluated by the real evaluator from MIR: A1+B1 and A1-B1 with any two finite f64 (overflow -> #NUM!); A1*B1, A1/B1, A1%, A1&B1 and the six '
             'comparisons with numbers from {0, 1.5, -2, 1e200, 4}; -A1, IF(A1,B1,7), AND, OR, NOT, SUM(A1:B1), COUNT, COUNTA, ISNUMBER, ISTEXT, ISBLANK, '
-            'IFERROR(A1,9) with any finite f64; ABS, MIN(A1:B1), MAX, AVERAGE, ROUND(A1,0), LEN, CONCAT(A1,B1) with the number menu; reference rules written in the harness: booleans count as 1/0 and empty as 0 in arithmetic, text is #VALUE!, '
+            'IFERROR(A1,9) with any finite f64; AND / OR with literal, computed and referenced text arguments; ABS, MIN(A1:B1), MAX, AVERAGE, ROUND(A1,0), LEN, CONCAT(A1,B1) with the number menu; reference rules written in the harness: booleans count as 1/0 and empty as 0 in arithmetic, text is #VALUE!, '
             'the left error wins, numbers < text < booleans in comparisons with empty taking the other side\'s type, ranges skip text/booleans/empties in SUM '
             'and COUNT, AND/OR scan left to right and stop at the deciding value (the engine\'s documented short circuit - Excel would still report an '
             'error behind it)',
@@ -73,10 +73,10 @@ prop('C09', prefix=['c09'],
             'binary operator, unary minus / percent on an operand; leaves: a relative reference and the number 2; (b) formulas assembled as text and parsed first: '
             '<leaf><op><leaf>, -<leaf>, <leaf>% with leaves A1 / $B$2 / Sheet1!C$3 / Ghost!A1 / A1:B2 / $A:$B / 2:3 / 1.5 / "a""b" / TRUE / #N/A / {1,2;3,4} and the 13 '
             'binary operators incl. the range operator; (c) function calls (real English function table): SUM(a,b), IF(a op b,a,b), SUM(a) op b, a op MAX(b,2), '
-            '-SUM(a op b), IF(AND(a,PI()>3),b%,NOT(a)) with 6 argument texts and 6 operators; (d) the texts of (c) shown in de / es / fr / it (real tables) with the en or the hand-built de locale and read back there.  (a)-(c) printed by to_rc_format (stored form) and to_localized_string '
+            '-SUM(a op b), IF(AND(a,PI()>3),b%,NOT(a)) with 6 argument texts and 6 operators; (d) the texts of (c) shown in de / es / fr / it (real tables) with the en or the hand-built de locale and read back there; (e) LAMBDA(x,y,x+y)(1.5,2) shown in the en and the decimal-comma locale and read back there.  (a)-(c) printed by to_rc_format (stored form) and to_localized_string '
             '(display form, en) and parsed back by the real lexer + parser; value-preserving re-associations (a+(b+c), a+(b-c), a&(b&c), -(a*b), -(a/b), a:(b:c)) '
             'are not demanded; texts the parser rejects are skipped',
-     outside='deeper trees, other functions, LAMBDA/LET, implicit intersection and spill operators, numbers that print in scientific notation, the xlsx export form, '
+     outside='deeper trees, other functions, other LAMBDA/LET forms, implicit intersection and spill operators, numbers that print in scientific notation, the xlsx export form, '
              'other locales, the operator trees and leaf menus of (a)/(b) in other languages')
 prop('C10', prefix=['c10'],
      bounds='one sheet with A1 = 1.5 and five formulas typed in English (SUM/IF with a decimal literal, AND/TRUE with a comparison, * and & with a string, '
